@@ -135,6 +135,9 @@ def run(tier, replay=None):
         c05.roundtrip_obligations(prog, rep)
     except ImportError:
         rep.notes.append('the re-parse of the extension string (ExtensionsMap::from_str on its own Display output) is the round-trip clause of C05')
+    # values built by the compile-time macros belong to this property's domain as well: the macro witnesses of C16 (cached per tree)
+    from . import c16
+    c16.witness_family(rep, tier)
     rep.explanation = ('(1) From<subtag> for uN and from_raw_unchecked are inverse packings: same byte order, the whole TinyStr width, nothing else applied to the integer, hence injective; '
                        '(2) into_parts / from_parts wire the fields straight through in order, from_parts re-establishes sorted, duplicate-free, None-when-empty variants for any order and duplication; '
                        '(3) every subtag validator is exact and normalising, so the parts of a parsed value are valid arguments and re-validating stored text is the identity. '
